@@ -1,0 +1,35 @@
+//go:build verif
+
+package consensus
+
+import (
+	"github.com/kardiachain/go-kardia/kai/state/cstate"
+	"github.com/kardiachain/go-kardia/lib/p2p"
+)
+
+// Exported aliases and accessors used only by the verification harness.
+
+type VerifMsgInfo = msgInfo
+type VerifTimeoutInfo = timeoutInfo
+
+func VerifNewMsgInfo(m Message, peer p2p.ID) VerifMsgInfo { return msgInfo{Msg: m, PeerID: peer} }
+
+func (cs *ConsensusState) VerifSetWAL(w WAL)                   { cs.wal = w }
+func (cs *ConsensusState) VerifWAL() WAL                       { return cs.wal }
+func (cs *ConsensusState) VerifSetTicker(t TimeoutTicker)      { cs.timeoutTicker = t }
+func (cs *ConsensusState) VerifPeerQueue() chan<- VerifMsgInfo { return cs.peerMsgQueue }
+func (cs *ConsensusState) VerifInternalQueueLen() int          { return len(cs.internalMsgQueue) }
+func (cs *ConsensusState) VerifDone() <-chan struct{}          { return cs.done }
+func (cs *ConsensusState) VerifState() cstate.LatestBlockState {
+	cs.mtx.RLock()
+	defer cs.mtx.RUnlock()
+	return cs.state.Copy()
+}
+func (cs *ConsensusState) VerifTryLock() bool {
+	if cs.mtx.TryLock() {
+		cs.mtx.Unlock()
+		return true
+	}
+	return false
+}
+func VerifRepairWalFile(src, dst string) error { return repairWalFile(src, dst) }
